@@ -36,7 +36,7 @@ ASSUMPTIONS = [
     "generated (pytype documents per-instance tracking only)",
 ]
 
-NONTRIVIAL = {"type-dispatch", "bool-op-value", "truthiness",
+NONTRIVIAL = {"flow:dict-store", "flow:dict-in", "flow:attr-store", "flow:list-mutate", "flow:list-insert", "flow:dict-del", "flow:set-add", "flow:nested-store", "type-dispatch", "bool-op-value", "truthiness",
               "branch-different-kinds", "conditional-return",
               "override-different-kind", "isinstance", "none-test", "try",
               "attribute-set-from-outside", "multiple-inheritance",
@@ -181,7 +181,9 @@ def check_program(ctx, prog, label="G"):
       continue
     t = consts[name]
     ok = O.admits(t, val)
-    ctx.check(ok, "stub-type-excludes-runtime-value:module-name",
+    ctx.check(ok, "stub-type-excludes-runtime-value:module-name" + (
+        "" if ok else (class_attr_behind_instance_store(src, name, ns) or
+                       dict_membership_after_store(src, name, ns))),
               "%s: stub type %s does not admit the run-time value %r" % (
                   name, an_print(t), val), case)
     # instance attributes
@@ -226,6 +228,64 @@ def check_program(ctx, prog, label="G"):
                   qual, val, [an_print(t) for t in rets]), case)
   if O.unmodelled:
     ctx.event("unmodelled-type-checks", len(O.unmodelled))
+
+
+def class_attr_behind_instance_store(src, name, ns):
+  """Suffix for the one recorded finding: `name = obj.attr` where the value
+  read at run time is the *class* attribute (the instance has no such entry)
+  and the program stores `<something>.attr` somewhere."""
+  tree = pyast.parse(src)
+  last = None
+  for node in tree.body:
+    if (isinstance(node, pyast.Assign) and len(node.targets) == 1 and
+        isinstance(node.targets[0], pyast.Name) and
+        node.targets[0].id == name):
+      last = node
+  if (last is None or not isinstance(last.value, pyast.Attribute) or
+      not isinstance(last.value.value, pyast.Name)):
+    return ""
+  obj, attr = ns.get(last.value.value.id), last.value.attr
+  if obj is None or type(obj).__module__ != "m" or isinstance(obj, type):
+    return ""
+  if attr in getattr(obj, "__dict__", {}):
+    return ""
+  if not any(attr in vars(c) for c in type(obj).__mro__ if c.__module__ == "m"):
+    return ""
+  stores = [n for n in pyast.walk(tree) if isinstance(n, pyast.Attribute) and
+            isinstance(n.ctx, pyast.Store) and n.attr == attr]
+  return ":class-attribute-read-after-conditional-instance-store" if stores else ""
+
+
+def dict_membership_after_store(src, name, ns):
+  """Suffix for the one recorded finding: the last assignment to `name` tests
+  `'key' in d` for a dict d that the program also stores into / deletes from
+  after creating it (pytype answers such a test from a flow-insensitive key
+  table)."""
+  tree = pyast.parse(src)
+  last = None
+  for node in tree.body:
+    if (isinstance(node, pyast.Assign) and len(node.targets) == 1 and
+        isinstance(node.targets[0], pyast.Name) and
+        node.targets[0].id == name):
+      last = node
+  if last is None:
+    return ""
+  for cmp_ in pyast.walk(last.value):
+    if not (isinstance(cmp_, pyast.Compare) and len(cmp_.ops) == 1 and
+            isinstance(cmp_.ops[0], (pyast.In, pyast.NotIn)) and
+            isinstance(cmp_.left, pyast.Constant) and
+            isinstance(cmp_.left.value, str) and
+            isinstance(cmp_.comparators[0], pyast.Name)):
+      continue
+    d = cmp_.comparators[0].id
+    if not isinstance(ns.get(d), dict):
+      continue
+    for n in pyast.walk(tree):
+      if (isinstance(n, pyast.Subscript) and
+          isinstance(n.ctx, (pyast.Store, pyast.Del)) and
+          isinstance(n.value, pyast.Name) and n.value.id == d):
+        return ":dict-membership-after-conditional-store"
+  return ""
 
 
 def an_print(t):
